@@ -103,6 +103,20 @@ CHECKS["C09"] = (
     "DESIGN.md section 3, C09",
 )
 
+CHECKS["C13"] = (
+    "ENUM",
+    "model_checking",
+    "bounded exhaustive enumeration of host trees x inserted trees x method bitmasks x solution limits on insert_tree, every result validated structurally",
+    "For seven small grammars (incl. one with a repeated nonterminal in one alternative and one with a single-nonterminal wrapper rule), "
+    "every closed host tree up to a node bound, every one-node open prefix of it and the bare open start node is combined with every "
+    "insertable tree (each open nonterminal; each one-step and two-step open expansion, i.e. the prefix trees of match expressions), every "
+    "method bitmask 1..7 and solution limits {1, 50}. Every returned tree must be a valid derivation tree with the host's root, contain "
+    "every host node by id and label, contain every expanded node of the inserted tree by id with its child list, and have unique ids; "
+    "any exception (including insert_tree's own assertions) is a violation.",
+    "Open leaves of the inserted tree may be filled by same-labelled nodes (that is how trees are connected). Bounds on host size are in the evidence.",
+    "DESIGN.md section 3, C13",
+)
+
 NOT_YET = "check not built yet in this round (planned in DESIGN.md section 3)"
 
 
